@@ -19,6 +19,10 @@ NOOP_PREFIXES = ("logging.", "deep.logging.", "logging.config.")
 class LibMixin:
     def call_builtin(self, name, args, kwargs, node, anchor):
         self.used_trusted.add(name)
+        if not name.startswith(("list.", "dict.", "str.", "new.", "Lock.")) and name not in (
+                "len", "isinstance", "type", "id", "hasattr", "getattr", "str", "bool", "int", "float", "callable"):
+            self.st.mark_escaped(*args)
+            self.st.mark_escaped(*kwargs.values())
         if name.startswith(NOOP_PREFIXES) or name in ("print",):
             # logging: arguments were evaluated by the caller; the call has no effect and never raises
             # (the logging package swallows formatting errors: trusted)
